@@ -301,6 +301,83 @@ example : (Request.writeSingleCoil 0xFFFF true).FixedLayout := trivial
 example : Tcp.decodeRequest (Spec.tcpFrame 0xFFFF 0 (Request.writeSingleCoil 0xFFFF true).image) =
     .ok (some (0xFFFF, 0, .writeSingleCoil 0xFFFF true)) := by decide +kernel
 
+/-! ### the serial-line-only requests: framed by the table, not encodable (open finding D19) -/
+
+/-
+Full statement of C05 for these kinds — FALSE for the model of the unedited crate (open finding D19):
+
+  theorem tcp_req_serial_only_roundtrip (tid : UInt16) (uid : UInt8) (r : Request)
+      (hr : r = .readExceptionStatus ∨ r = .getCommEventCounter ∨ r = .getCommEventLog ∨ r = .reportServerId)
+      (buf : Bytes) (hb : 8 ≤ buf.length) :
+      ∃ out, Tcp.encodeRequest tid uid r buf = .ok (8, out) ∧
+        out.take 8 = Spec.tcpFrame tid uid [r.fc.value] ∧
+        ∃ r', Tcp.decodeRequest (out.take 8) = .ok (some (tid, uid, r')) ∧ r'.fc.value = r.fc.value
+
+("every request that TCP framing supports": the length table and the crate's own `tcp::request_pdu_len`
+frame 0x07 / 0x0B / 0x0C / 0x11 as one-byte PDUs.)  It fails at the first conjunct: `Request::pdu_len` is
+`todo!()` for these kinds, so `tcp::server::encode_request` PANICS on every buffer that passes its own
+seven-byte header-room check.
+-/
+/-- **open finding D19 at TCP ADU level** (the analogue of `C04.rtu_unimplemented_request_panics_witness`).
+    `tcp::server::encode_request` on ANY transaction id, ANY unit id and each of the four serial-line-only
+    requests the framing layer supports: `Err(BufferSize)` for a buffer of fewer than seven bytes (the
+    encoder's header-room check comes first), a PANIC for EVERY longer buffer, from seven bytes on — the
+    three header stores succeed, then `RequestPdu::encode` calls `Request::encode` without any emptiness
+    check of its own and `Request::pdu_len` is `todo!()`, so the panic does not wait for an eighth byte —
+    although the specification's length table frames each of the four codes as a one-byte PDU, and the
+    frames `tid, 00 00, 00 02, uid, code` are what the crate's own server-side decoder accepts (as `Custom`
+    requests). -/
+theorem tcp_unimplemented_request_panics_witness (tid : UInt16) (uid : UInt8) (r : Request)
+    (hr : r = .readExceptionStatus ∨ r = .getCommEventCounter ∨ r = .getCommEventLog ∨ r = .reportServerId)
+    (buf : Bytes) :
+    Tcp.encodeRequest tid uid r buf = (if buf.length < 7 then .err .bufferSize else .panic) ∧
+    (buf.length < 7 → Tcp.encodeRequest tid uid r buf = .err .bufferSize) ∧
+    (7 ≤ buf.length → Tcp.encodeRequest tid uid r buf = .panic) ∧
+    Spec.lenRule .req r.fc.value.toNat = .fixed 1 ∧
+    Spec.lenRule .req 0x07 = .fixed 1 ∧ Spec.lenRule .req 0x0B = .fixed 1 ∧
+    Spec.lenRule .req 0x0C = .fixed 1 ∧ Spec.lenRule .req 0x11 = .fixed 1 ∧
+    Spec.PduComplete .req [r.fc.value] ∧
+    Tcp.decodeRequest (Spec.tcpFrame tid uid [r.fc.value]) =
+      .ok (some (tid, uid, .custom (.custom r.fc.value) [])) := by
+  have key : Tcp.encodeRequest tid uid r buf = (if buf.length < 7 then .err .bufferSize else .panic) := by
+    unfold Tcp.encodeRequest Tcp.encodeAdu
+    by_cases h : buf.length < 7
+    · rw [if_pos h, if_pos h]
+    · rw [if_neg h, if_neg h]
+      -- split the buffer into the seven header bytes and the rest: the header stores succeed
+      obtain ⟨hd, rest, rfl, hhd⟩ : ∃ hd rest, buf = hd ++ rest ∧ hd.length = 7 :=
+        ⟨buf.take 7, buf.drop 7, (List.take_append_drop 7 buf).symm, by simp; omega⟩
+      match hd, hhd with
+      | [b0, b1, b2, b3, b4, b5, b6], _ =>
+        have w1 : applyWrites ([b0, b1, b2, b3, b4, b5, b6] ++ rest) [(0, be16 tid), (2, be16 0), (6, [uid])] =
+            .ok (be16 tid ++ be16 0 ++ [b4, b5, uid] ++ rest) := by
+          simp [applyWrites, writeAt, be16]
+        rw [w1]
+        -- … and the PDU encoder panics whatever is left of the buffer (`Request::pdu_len` comes first)
+        rcases hr with rfl | rfl | rfl | rfl <;> rfl
+  refine ⟨key, fun h => by rw [key, if_pos h], fun h => by rw [key, if_neg (by omega)], ?_,
+    by decide, by decide, by decide, by decide, ?_, ?_⟩
+  · rcases hr with rfl | rfl | rfl | rfl <;> decide
+  · rcases hr with rfl | rfl | rfl | rfl <;> exact complete_fixed (n := 1) rfl (by decide) rfl
+  · have h := fun (c : UInt8) (hc : Spec.PduComplete .req [c]) (hm : c ∉ modelledReqCodes) =>
+      (tcp_req_roundtrip_custom tid uid (.custom c) [] hc hm []).1
+    simp only [List.append_nil] at h
+    rcases hr with rfl | rfl | rfl | rfl
+    · exact h 0x07 (complete_fixed (n := 1) rfl (by decide) rfl) (by decide)
+    · exact h 0x0B (complete_fixed (n := 1) rfl (by decide) rfl) (by decide)
+    · exact h 0x0C (complete_fixed (n := 1) rfl (by decide) rfl) (by decide)
+    · exact h 0x11 (complete_fixed (n := 1) rfl (by decide) rfl) (by decide)
+
+example : Tcp.encodeRequest 0x1234 0x11 .readExceptionStatus [] = .err .bufferSize ∧
+    Tcp.encodeRequest 0x1234 0x11 .readExceptionStatus (List.replicate 6 0) = .err .bufferSize ∧
+    Tcp.encodeRequest 0x1234 0x11 .readExceptionStatus (List.replicate 7 0) = .panic ∧
+    Tcp.encodeRequest 0x1234 0x11 .getCommEventCounter (List.replicate 8 0) = .panic ∧
+    Tcp.encodeRequest 0x1234 0x11 .getCommEventLog (List.replicate 260 0) = .panic ∧
+    Tcp.encodeRequest 0x1234 0x11 .reportServerId (List.replicate 12 0) = .panic ∧
+    Tcp.decodeRequest [0x12, 0x34, 0x00, 0x00, 0x00, 0x02, 0x11, 0x07] =
+      .ok (some (0x1234, 0x11, .custom (.custom 0x07) [])) := by
+  decide +kernel
+
 /-! ### responses -/
 
 /-- Decoding the frame of a complete, non-exception response PDU returns the same ids and the value
